@@ -800,6 +800,90 @@ def cli_opts_stage(tools, work, rep, ev, tier, rng):
     return n
 
 
+def comp_opts_stage(tools, work, rep, ev, tier, rng):
+    """spec/CompOpts.tla: every -X string of <= 2 tokens per compressor and block size has a specified outcome (refused, or the option record
+    behind the super block); the real gensquashfs on each (quick: a sample), the record compared byte for byte, the content read back by
+    rdsquashfs and sqfs2tar, the record given to the real read_options."""
+    import compopt_bind, tarfile, io
+    mc = compopt_bind.model_check(work, ev, 2)
+    if mc is None:
+        return None
+    cases, _ = mc
+    if len(cases) < 1500:
+        print("SELF-CHECK-FAILED: CompOpts emitted %d cases" % len(cases))
+        return None
+    rng.shuffle(cases)
+    if tier == "quick":
+        cases = [c for c in cases if len(c["toks"]) < 2] + [c for c in cases if len(c["toks"]) == 2][:350]
+    d = work + "/co"
+    os.makedirs(d + "/t", exist_ok=True)
+    content = {"f1": (b"compressible line\n" * 9000), "f2": bytes(rng.getrandbits(8) for _ in range(5000)), "f3": b"tail"}
+    for k, v in content.items():
+        open(d + "/t/" + k, "wb").write(v)
+    read = compopt_bind.reader(work, "c01")
+
+    def do(i):
+        c = cases[i]
+        img = "%s/o%d.sqfs" % (d, i)
+        args = [tools + "/gensquashfs", "-q", "-f", "-c", c["c"], "-b", str(c["bs"])] + (["-X", ",".join(c["toks"])] if c["toks"] else []) + ["-D", d + "/t", img]
+        desc = " ".join(args[3:-3])
+        try:
+            rc, o, e = sh(args, timeout=120)
+            if rc < 0 or b"ERROR: AddressSanitizer" in e:
+                return "pack-memory-error", "gensquashfs %s: crash %s" % (desc, e.decode(errors="replace")[-200:])
+            if rc != 0:
+                return None if c["out"]["refused"] else ("pack-refuses-valid", "gensquashfs %s: refused (%s)" % (desc, e.decode(errors="replace").strip()[-150:]))
+            note = None
+            raw = open(img, "rb").read()
+            im = sqfsimg.SqfsImage(raw)
+            got = None if im.comp_opts is None else raw[96:im.data_start]
+            if c["out"]["refused"]:
+                note = ("compopt-accepted", "gensquashfs %s: exit 0, the specification refuses this option string" % desc)
+                want = got
+            else:
+                want = compopt_bind.encode(c["out"]["stored"])
+                if got != want:
+                    note = ("compopt-record", "gensquashfs %s: option record %s, specified %s" % (desc, got and got.hex(), want and want.hex()))
+                    want = got
+            for k, v in content.items():
+                rc2, o2, e2 = sh([tools + "/rdsquashfs", "-c", k, img], timeout=60)
+                if rc2 != 0 or o2 != v:
+                    return "roundtrip-content", "gensquashfs %s: rdsquashfs -c %s gives %s" % (desc, k, "exit %d %s" % (rc2, e2.decode(errors="replace")[-100:]) if rc2 else "other bytes")
+            rc3, o3, e3 = sh([tools + "/sqfs2tar", img], timeout=60)
+            if rc3 != 0:
+                return "roundtrip-content", "gensquashfs %s: sqfs2tar fails: %s" % (desc, e3.decode(errors="replace")[-100:])
+            tf = tarfile.open(fileobj=io.BytesIO(o3))
+            for k, v in content.items():
+                if tf.extractfile(k).read() != v:
+                    return "roundtrip-content", "gensquashfs %s: sqfs2tar gives other bytes for %s" % (desc, k)
+            if want is not None:
+                rr = read(c["c"], c["bs"], want, i)
+                if rr.get("crash") or rr.get("create") or rr.get("read"):
+                    return "compopt-own-record-refused", "gensquashfs %s: the library's read_options does not take the record the writer stored: %s" % (desc, rr)
+            return note
+        finally:
+            if os.path.exists(img):
+                os.unlink(img)
+    n, seen, drift = 0, set(), []
+    with ThreadPoolExecutor(16) as ex:
+        for res in ex.map(do, range(len(cases))):
+            n += 1
+            if res and res[0] in ("compopt-accepted", "compopt-record", "pack-refuses-valid"):
+                # which option strings are taken and what is stored behind the super block is the model's description of the code; C01 is about
+                # what reads back, and every accepted run above has been read back
+                if res[0] not in seen:
+                    print("SPEC-DRIFT (no alarm): %s" % res[1])
+                seen.add(res[0])
+                drift.append(res[1])
+                continue
+            if res and res[0] not in seen:
+                seen.add(res[0])
+                rep.violation(res[0], res[1])
+    ev.set("compressor_option_cases_replayed", n)
+    ev.set("compressor_option_drift", drift[:5])
+    return n
+
+
 def stat_listing_stage(tools, work, rep, ev, rng):
     """read-back through `rdsquashfs -s` (every inode kind, basic and extended) and `rdsquashfs -l`, plus one packing run WITHOUT -q (the
     statistics path): what these print must be what the independent decoder finds in the image"""
@@ -1279,6 +1363,10 @@ def run(tier):
     if cn is None:
         return 2
     evaluations += cn
+    con = comp_opts_stage(tools, work, rep, ev, tier, rng)
+    if con is None:
+        return 2
+    evaluations += con
     dn = sqfsdiff_stage(tools, work, rep, ev, tier, rng)
     if dn is None:
         return 2
